@@ -37,8 +37,7 @@ import c06
 
 PID = "C07"
 CHILD = Path(__file__).resolve().parent / "c07_child.py"
-TARGETS = ["Sim/Case.vo", "Sim/ReproProofs.vo", "Props/C07.vo", "Streams/Stream.vo"]
-TWO53 = 1 << 53
+TARGETS = ["Sim/Case.vo", "Sim/ReproProofs.vo", "Sim/ReproEmbed.vo", "Props/C07.vo", "Streams/Stream.vo"]
 
 
 # ----------------------------------------------------------------------------- children
@@ -195,7 +194,7 @@ def variants(rng, model, clock, with_stop):
         (1, PRIORS[1], dict(base, cmds=[init, ["runupto", t2], ["start"]])),
         (2, PRIORS[2], dict(base, cmds=[init, ["runuptoincl", t1], ["runupto", t2], ["runuptoincl", t3], ["start"]])),
         ("random", PRIORS[3], dict(base, cmds=[init, ["start"]])),
-        ("random", PRIORS[4], dict(base, cmds=[init, ["step"], ["step"], ["runupto", t2], ["step"], ["start"]])),
+        ("random", PRIORS[4], dict(base, cmds=[init, ["step"], ["step"], ["runupto", t1], ["step"], ["runuptoincl", t3], ["start"]])),
     ]
     if with_stop:
         out.append((1, PRIORS[1], dict(base, cmds=[init, ["start"], ["start"]], stop_at=[rng.randint(1, 6)])))
@@ -254,163 +253,9 @@ def first_diff(a, b):
     return None, ""
 
 
-# ----------------------------------------------------------------------------- Coq emission
-def c_yaction(a):
-    k = a[0]
-    if k == "sched" and a[1][0] == "reld":
-        m = a[1]
-        return f"YSchedD {C.cnat(STREAM_IX[m[1]])} {C.cz(m[2])} {C.cz(m[3])} {C.cz(m[4])} {C.cz(a[2])} {C.cnat(a[3])}"
-    if k == "obsd":
-        return f"YObsD {C.cnat(a[1])} {C.cnat(STREAM_IX[a[2]])} {C.cz(a[3])} {C.cz(a[4])}"
-    if k == "obsf":
-        return f"YObsF {C.cnat(a[1])} {C.cnat(STREAM_IX[a[2]])}"
-    if k == "fire":
-        return f"YFire {C.cnat(a[1])}"
-    if k == "sub":
-        return f"YSub {C.cnat(a[1])} {C.cnat(a[2])}"
-    if k == "unsub":
-        return f"YUnsub {C.cnat(a[1])} {C.cnat(a[2])}"
-    return f"YA ({S.c_action(a)})"
-
-
-STREAM_IX = {"a": 0, "b": 1, "c": 2}
-
-
-def raw_outputs(seed, n):
-    r = random.Random(seed)
-    return [int(r.random() * TWO53) for _ in range(n)]
-
-
-def c_ymodel(m, ndraws):
-    prog = C.clist(C.clist(c_yaction(a) for a in body) for body in m["prog"])
-    lst = C.clist(C.clist(c_yaction(a) for a in body) for body in m.get("lst", []))
-    subs = C.clist(f"({C.cnat(et)}, {C.cnat(l)})" for et, l in m.get("subs", []))
-    stats = C.clist(f"({C.cnat(k)}, {c06.SK[kind]}, {C.cnat(sid)})" for k, kind, sid in m.get("stats", []))
-    tabs = [[] for _ in range(3)]
-    for nm, seed in m.get("streams", []):
-        tabs[STREAM_IX[nm]] = raw_outputs(seed, ndraws.get(nm, 0) + 2)
-    streams = C.clist(C.clist(C.cz(k) for k in t) for t in tabs)
-    return f"(mkYModel {prog} {lst} {subs} {stats} {streams})"
-
-
-def conv_val(v):
-    """observation values: ints stay, float draws u = k / 2^53 become k, integral floats become ints"""
-    if isinstance(v, str):
-        f = float.fromhex(v)
-        if f == int(f) and (abs(f) >= 1 or f == 0):
-            return int(f)
-        k = f * TWO53
-        if k != int(k):
-            raise ValueError(v)
-        return int(k)
-    return int(v)
-
-
-def c_obs_list(obs):
-    return C.clist(f"ObsV {C.cnat(s)} {C.cz(conv_val(v))} {C.cz(t)}" for s, v, t in obs)
-
-
-def c_fed(sid, fed):
-    out = []
-    for e in fed:
-        if e[0] == "v":
-            out.append(f"ObsV {C.cnat(sid)} {C.cz(conv_val(e[1]))} {C.cz(e[2])}")
-        elif e[0] == "warm":
-            out.append(f"ObsWarm {C.cz(e[1])}")
-        else:
-            out.append(f"ObsEnd {C.cz(e[1])}")
-    return C.clist(out)
-
-
-def c_yexpect(obs):
-    snaps = C.clist(f"mkSnap {'ResOk' if s[0] == 'ok' else 'ResRefused'} {S.RS[s[1]]} {S.PS[s[2]]} {C.cz(s[3])} {C.cnat(s[4])}"
-                    for s in obs["snaps"])
-    trace = C.clist(f"({C.cnat(k)}, {C.cz(t)})" for k, t in obs["trace"])
-    outs = C.clist({"acc": "OAccepted", "ref": "ORefused", "cmdok": "OCmdOk", "cmdref": "OCmdRefused"}[o]
-                   for o in obs["outs"])
-    ntfs = C.clist(("NStarting" if nm == "starting" else "NStopping" if nm == "stopping" else f"{S.NTF[nm]} {C.cz(t)}")
-                   for nm, t in obs["ntfs"])
-    canc = C.clist(C.cnat(k) for k in obs.get("canc", []))
-    return f"(mkExpect {snaps} {trace} {outs} {ntfs} {c_obs_list(obs['obs'])} {canc} {C.cbool(obs['alive'])})"
-
-
-def c_ycase(case, obs, mname):
-    hist = C.clist(f"({mname}, {S.c_cmd(c[:4] if c[0] == 'init' else c)})" for c in case["cmds"])
-    dl = C.clist(f"mkDlv {C.cnat(et)} {C.cnat(l)} {C.cnat(ser)} {C.cz(t)}" for et, l, ser, t in obs["dlv"])
-    raws = {}
-    drw = []
-    for nm, kind, v in obs["draws"]:
-        pass
-    m = case["models"][0]
-    seeds = dict((nm, sd) for nm, sd in m.get("streams", []))
-    pos = {nm: 0 for nm in seeds}
-    tabs = {nm: raw_outputs(sd, sum(1 for d in obs["draws"] if d[0] == nm) + 2) for nm, sd in seeds.items()}
-    for nm, kind, v in obs["draws"]:
-        drw.append(f"({C.cnat(STREAM_IX[nm])}, {C.cz(tabs[nm][pos[nm]])})")
-        pos[nm] += 1
-    rep = []
-    sid_of = {f"st{k}": (k, kind, sid) for k, kind, sid in m["stats"]}
-    for x in (obs.get("reported") or []):
-        k, kind, sid = sid_of[x["key"]]
-        rep.append(f"({C.cnat(k)}, {c06.SK[x['kind'] or kind]}, {c_fed(sid, x['fed'])})")
-    return f"(mkYCase {S.STRAT[case['strategy']]} {hist} {c_yexpect(obs)} {dl} {C.clist(drw)} {C.clist(rep)})"
-
-
-PRELUDE = ["From Coq Require Import ZArith List.",
-           "From PV Require Import Sim.Model Sim.Case Sim.Reinit Sim.Repro.",
-           "From PV Require Streams.Stream.",
-           "Import ListNotations.",
-           "Definition nint (lo hi k : Z) : Z := match PV.Streams.Stream.next_int_fixed lo hi k with "
-           "PV.Streams.Stream.OInt z => z | _ => lo end."]
-
-
-def coq_compare(groups):
-    """groups: list of (model, ndraws, [(case, obs), ...]); returns per group list of codes, error"""
-    d = C.scratch_dir(PID)
-    files = []
-    per_file = []
-    shard = 6
-    for g0 in range(0, len(groups), shard):
-        grp = groups[g0:g0 + shard]
-        f = d / f"cases_c07_{g0 // shard}.v"
-        lines = list(PRELUDE)
-        names = []
-        for gi, (model, ndraws, pairs) in enumerate(grp):
-            lines.append(f"Definition m{gi} : ymodel := {c_ymodel(model, ndraws)}.")
-            for case, obs in pairs:
-                names.append((g0 + gi, c_ycase(case, obs, f"m{gi}")))
-        lines.append("Definition cases : list ycase := [")
-        lines.append(";\n".join(t for _, t in names))
-        lines.append("].")
-        lines.append("Eval vm_compute in (ycodes_from nint 0 1 cases).")
-        lines.append("Eval vm_compute in (ycodes_from nint 0 2 cases).")
-        f.write_text("\n".join(lines) + "\n")
-        files.append(f)
-        per_file.append([g for g, _ in names])
-    results = C.coqc_many(files)
-    codes = {}
-    for fi, (rc, out) in enumerate(results):
-        lists = C.parse_nat_lists(out)
-        if rc != 0 or len(lists) != 2:
-            return None, f"coqc failed on {files[fi]}: {out[-800:]}"
-        seen = {}
-        for pos, g in enumerate(per_file[fi]):
-            j = seen.get(g, 0)
-            seen[g] = j + 1
-            code = 1 if pos in lists[0] else 2 if pos in lists[1] else 0
-            codes[(g, j)] = code
-    return codes, None
-
-
-def coq_view(model, ndraws, case, obs):
-    d = C.SCRATCH / (PID + "_view")
-    d.mkdir(parents=True, exist_ok=True)
-    f = d / "view.v"
-    f.write_text("\n".join(PRELUDE) + f"\nDefinition m0 : ymodel := {c_ymodel(model, ndraws)}.\n"
-                 f"Definition c : ycase := {c_ycase(case, obs, 'm0')}.\n"
-                 "Eval vm_compute in (ycase_parts nint c).\nEval vm_compute in (ycase_view nint c).\n")
-    rc, out = C.coqc_file(f)
-    return out[-6000:]
+# ----------------------------------------------------------------------------- Coq emission (shared with c06.py)
+def coq_compare(items):
+    return c06.ycoq_compare(PID, items, shard=20)
 
 
 RULE = ("stochastic model programs with pub/sub fan-out: 2-3 self-rescheduling handlers with delays drawn from three shared "
@@ -462,7 +307,8 @@ def main(tier: str) -> int:
     nontriv = 0
     n_children = 0
     n_firings = 0
-    hist = {"hashseed_random_children": 0, "distinct_hash_probes": set(), "with_stop_from_handler": 0}
+    hist = {"hashseed_random_children": 0, "distinct_hash_probes": set(), "with_stop_from_handler": 0,
+            "children_skipped_step_onto_replication_end": 0}
     bads = {}
     groups = []
     for pi, lst in by_prog.items():
@@ -475,6 +321,16 @@ def main(tier: str) -> int:
             continue
         n_children += len(lst)
         ref = lst[0][2]
+        # C03's stated boundary: a step that lands exactly on the replication end leaves clock = end without ending
+        # the replication; neither start nor step is accepted any more.  Such a child is not comparable.
+        def stuck_at_end(job, o):
+            end = job["job"]["case"]["cmds"][0][3]
+            fin = o["parts"]["final"]
+            return (any(c[0] == "step" for c in job["job"]["case"]["cmds"]) and fin and fin[1] == "STARTED" and fin[2] == end)
+        skipped = [vi for vi, job, o in lst if stuck_at_end(job, o)]
+        hist["children_skipped_step_onto_replication_end"] = hist.get("children_skipped_step_onto_replication_end", 0) + len(skipped)
+        lst_all = lst
+        lst = [x for x in lst if x[0] not in skipped]
         for vi, job, o in lst:
             hist["distinct_hash_probes"].add(o.get("probe"))
             if job["hashseed"] == "random":
@@ -503,10 +359,10 @@ def main(tier: str) -> int:
         if len(full0["trace"]) >= 10 and big_fan and midrun:
             nontriv += 1
         ndraws = {}
-        for vi, job, o in lst:
+        for vi, job, o in lst_all:
             for nm in "abc":
                 ndraws[nm] = max(ndraws.get(nm, 0), sum(1 for d in o["full"]["draws"] if d[0] == nm))
-        pairs = [(job["job"]["case"], o["full"]) for vi, job, o in lst if not job["job"]["case"].get("stop_at")]
+        pairs = [(job["job"]["case"], o["full"]) for vi, job, o in lst_all if not job["job"]["case"].get("stop_at")]
         groups.append((pi, model, ndraws, pairs))
     hist["distinct_hash_probes"] = len(hist["distinct_hash_probes"])
     run.cov["evaluations"] = n_children
@@ -527,20 +383,20 @@ def main(tier: str) -> int:
                                   "how": "echo '<child_job.job>' | PYTHONHASHSEED=<hashseed> PYTHONPATH=/repo/src python harness/c07_child.py; "
                                          "compare with the same case run with PYTHONHASHSEED=0 and no prior activity"})
 
-    codes, err = coq_compare([(m, nd, pairs) for _, m, nd, pairs in groups]) if groups else ({}, None)
+    items = [(case, obs) for _, _, _, pairs in groups for case, obs in pairs]
+    codes, err = coq_compare(items) if items else ([], None)
     if err:
         run.violation("correspondence-not-evaluable", err, {}, found_input=False)
         return run.finish()
-    n_ok = sum(1 for v in codes.values() if v == 0)
-    n_dis = sum(1 for v in codes.values() if v == 1)
+    n_ok = sum(1 for v in codes if v == 0)
+    n_dis = sum(1 for v in codes if v == 1)
     run.cov["traces_validated_against_impl"] = n_ok
     run.cov["model_impl_mismatches"] = n_dis
-    run.cov["cases_outside_model"] = sum(1 for v in codes.values() if v == 2)
+    run.cov["cases_outside_model"] = sum(1 for v in codes if v == 2)
+    run.cov["cases_not_representable"] = sum(1 for v in codes if v == 3)
     if n_dis and not bads:
-        (g, j) = next(k for k, v in codes.items() if v == 1)
-        pi, model, ndraws, pairs = groups[g]
-        case, obs = pairs[j]
-        view = coq_view(model, ndraws, case, obs)
+        case, obs = items[codes.index(1)]
+        view = c06.ycoq_view(PID, case, obs)
         run.violation("model-impl-disagree",
                       "the composed model Sim.Repro.ycase_code no longer predicts the implementation's run, but all child "
                       "processes agree with each other and with the subscription-order clause",
@@ -550,6 +406,47 @@ def main(tier: str) -> int:
         run.violation("proof-broken", f"a {PID} proof obligation no longer checks: " + getattr(run, "proof_log", "")[-800:],
                       {"theorems": run.cov.get("theorems")}, found_input=False)
     return run.finish()
+
+
+def judge_program(clock, model, vseed, with_stop=True):
+    """run all children of one program; returns (signature, text, job) of the first violated clause or None"""
+    vr = random.Random(vseed)
+    jobs = [{"job": {"prior": prior, "case": case, "full": True}, "hashseed": hs}
+            for hs, prior, case in variants(vr, model, clock, with_stop=with_stop)]
+    outs = run_children(jobs)
+    ref = outs[0]
+    for vi, (job, o) in enumerate(zip(jobs, outs)):
+        if "error" in o or o.get("notes"):
+            return ("child-error", f"child {vi}: {o.get('error') or o.get('notes')}", job)
+    for vi, (job, o) in enumerate(zip(jobs, outs)):
+        why, _ = subscription_order(o["full"]["log"])
+        if why:
+            return ("listeners-not-notified-in-subscription-order", f"child {vi} (PYTHONHASHSEED={job['hashseed']}): {why}", job)
+        end = job["job"]["case"]["cmds"][0][3]
+        fin = o["parts"]["final"]
+        if any(c[0] == "step" for c in job["job"]["case"]["cmds"]) and fin and fin[1] == "STARTED" and fin[2] == end:
+            continue
+        if o["digest"] != ref["digest"]:
+            part, what = first_diff(ref["parts"], o["parts"])
+            return (f"run-differs-between-processes-{part}", f"child {vi} (PYTHONHASHSEED={job['hashseed']}, prior activity "
+                    f"{job['job']['prior']}, commands {job['job']['case']['cmds'][1:]}) differs from child 0: {what}", job)
+    return None
+
+
+def replay(path: str) -> int:
+    """./check C07 --replay <file>: run the recorded program again in its child interpreters (all hash seeds, prior
+    activities and pause patterns) and judge it with the model-independent clauses."""
+    body = json.loads(Path(path).read_text())
+    if "model" not in body:
+        print(f"nothing replayable in {path} (no concrete input was found for this violation: {body.get('what', '')[:200]})")
+        return 1 if body.get("property") == PID else 2
+    bad = judge_program(body["clock"], body["model"], body.get("variant_seed", 1))
+    if bad:
+        print(f"VIOLATION property={PID} replay={path}")
+        print(f"  {bad[0]}: {bad[1]}")
+        return 1
+    print(f"replay passes on this tree: property={PID} program={json.dumps(body['model'])[:300]}")
+    return 0
 
 
 if __name__ == "__main__":
